@@ -292,6 +292,7 @@ public:
    *
    * @param rowIndex the index of the row
    * @param rowName The row name.
+   * @throw NoTableRowNamesException If no row names are associated to this table.
    * @throw DimensionException If the index does not match.
    * @throw DuplicatedTableRowNameException If name is already given.
    */
